@@ -29,7 +29,9 @@ SSEParameters), "close_raises" (closing the GET response stream raises).
 Round 4 additions: "twin" (n: n sessions with their own scripted servers run CONCURRENTLY in one
 process, same script, same request ids; "twin_offset": ticks between their starts), "warm" as a list
 of conn specs (consecutive earlier sessions on the same parameters object, e.g. failing ones),
-"debug_log" (root logger at DEBUG with a NullHandler, as a host that configured logging),
+"debug_log" (root logger at DEBUG with a handler that formats every record, as a host that configured logging),
+"stderr" ("broken": sys.stderr raises on write, "ascii": an ASCII-only stream), "close_write_at" / "close_read_at"
+(the application closes its end of the write / read stream at that tick),
 "close_exc" (the GET stream ends with an exception of that class instead of EOF), conn / post
 "exc_class" (class of the exception the connection attempt / the POST raises), more 200 bodies.
 conn.at, chunk ticks and close are relative to the arrival of the GET; enter.t is relative to the
@@ -102,6 +104,8 @@ def answer_msg(r, which):
         if "data" in a:
             err["data"] = a["data"]
         m = {"jsonrpc": "2.0", "id": rid, "error": err}
+    elif "big" in a:
+        m = {"jsonrpc": "2.0", "id": rid, "result": {"blob": big_text(a["big"], 1), "tag": which}}
     else:
         m = {"jsonrpc": "2.0", "id": rid, "result": a.get("payload", {})}
     for k, v in (r.get("extra") or {}).items():
@@ -136,6 +140,14 @@ def id_key(v):
 JSON_NON_OBJECTS = {"list": b"[1, 2]", "null": b"null", "number": b"7", "string": b"\"ok\"", "true": b"true"}
 
 
+class DictSub(dict):
+    pass
+
+
+class StrSub(str):
+    pass
+
+
 class Garbage:
     """an object that is neither a dict nor a model"""
 
@@ -168,12 +180,21 @@ def make_exc(name, request, default_msg):
 
 
 def _debug_logging():
-    """Run the code as a host application with logging configured at DEBUG would (every
-    `logger.debug(...)` / `isEnabledFor` branch is live); records go to a NullHandler."""
+    """Run the code as a host application with logging configured at DEBUG would: every
+    `logger.debug(...)` / `isEnabledFor` branch is live and every record is FORMATTED (a handler
+    whose `emit` calls `self.format(record)`, as a stream or file handler does — `%`-style argument
+    mismatches and failing `__str__` of arguments show only then); the text is discarded."""
     import logging
+
+    class Formatting(logging.Handler):
+        def emit(self, record):
+            self.format(record)
+
     root = logging.getLogger()
-    prev_disable, prev_level, prev_handlers = root.manager.disable, root.level, list(root.handlers)
-    root.handlers[:] = [logging.NullHandler()]
+    prev_disable, prev_level, prev_handlers, prev_raise = root.manager.disable, root.level, list(root.handlers), logging.raiseExceptions
+    h = Formatting()
+    h.setFormatter(logging.Formatter("%(asctime)s %(name)s %(levelname)s %(message)s"))
+    root.handlers[:] = [h]
     root.setLevel(logging.DEBUG)
     logging.disable(logging.NOTSET)
 
@@ -181,7 +202,26 @@ def _debug_logging():
         logging.disable(prev_disable)
         root.setLevel(prev_level)
         root.handlers[:] = prev_handlers
+        logging.raiseExceptions = prev_raise
     return restore
+
+
+class _BrokenStderr:
+    """`sys.stderr` of a daemonised host: closed / not writable"""
+    encoding = "ascii"
+
+    def write(self, _s):
+        raise ValueError("I/O operation on closed file")
+
+    def flush(self):
+        raise ValueError("I/O operation on closed file")
+
+
+def big_text(n, salt=0):
+    """deterministic text of n characters with some multi-byte ones (so that chunk boundaries
+    also fall inside characters)"""
+    unit = f"<{salt}>0123456789abcdefghijklmnopqrstuvwxyzé€-"
+    return (unit * (n // len(unit) + 1))[:n]
 
 
 def run_case(case):
@@ -451,6 +491,12 @@ def run_case(case):
                     msg["params"] = r["params"]
                 if r.get("form") == "model":
                     return JSONRPCMessage.model_validate(msg)
+                if r.get("form") == "dictsub":   # subclasses of the builtin types flow through the API too
+                    if isinstance(msg.get("id"), str):
+                        msg["id"] = StrSub(msg["id"])
+                    return DictSub(msg)
+                if r.get("form") == "odict":
+                    return collections.OrderedDict(msg)
                 return msg
 
             async def warm(spec):
@@ -492,6 +538,12 @@ def run_case(case):
                         t0 = loop.ticks
                         if canceller:
                             loop.at(t0 + ex["at"], canceller[0])
+                        if case.get("close_write_at") is not None:
+                            # the application closes its end of the write stream
+                            loop.at(t0 + case["close_write_at"], lambda: asyncio.ensure_future(ws.aclose()))
+                        if case.get("close_read_at") is not None:
+                            # the application stops reading and closes its end of the read stream
+                            loop.at(t0 + case["close_read_at"], lambda: asyncio.ensure_future(rs.aclose()))
                         wtask = None
                         if case.get("write_mode") == "await":
                             async def producer():
@@ -616,7 +668,9 @@ def run_case(case):
     obs = sessions[0]["obs"]
     try:
         # the code under test prints tracebacks of swallowed exceptions to stderr
-        with contextlib.redirect_stderr(io.StringIO()):
+        err = _BrokenStderr() if case.get("stderr") == "broken" else io.TextIOWrapper(io.BytesIO(), encoding="ascii") \
+            if case.get("stderr") == "ascii" else io.StringIO()
+        with contextlib.redirect_stderr(err):
             dl = guarded_run(main, tie=case.get("tie", "events"))
         if dl is not None:
             # the code under test waits for something that can never happen
